@@ -16,16 +16,19 @@ type State struct {
 	Alloc Term
 	// HavocAll: an unresolved call or loop may have written every heap key; keys absent from Heap are unknown.
 	HavocAll bool
-	// Unknown: keys havocked before their sort was known to this run.
-	Unknown map[string]bool
+	// HavocID names the unknown heap of a HavocAll state: every clone of the state sees the same unknown value for a
+	// key that was not written since.
+	HavocID int
+	// Unknown: keys havocked before their sort was known to this run (value: id naming the unknown value).
+	Unknown map[string]int
 }
 
 func (s *State) Clone() *State {
-	n := &State{PC: s.PC, Alloc: s.Alloc, Vars: make(map[types.Object]Term, len(s.Vars)), Heap: make(map[string]Term, len(s.Heap)), HavocAll: s.HavocAll}
+	n := &State{PC: s.PC, Alloc: s.Alloc, Vars: make(map[types.Object]Term, len(s.Vars)), Heap: make(map[string]Term, len(s.Heap)), HavocAll: s.HavocAll, HavocID: s.HavocID}
 	if len(s.Unknown) > 0 {
-		n.Unknown = map[string]bool{}
-		for k := range s.Unknown {
-			n.Unknown[k] = true
+		n.Unknown = map[string]int{}
+		for k, v := range s.Unknown {
+			n.Unknown[k] = v
 		}
 	}
 	for k, v := range s.Vars {
@@ -48,8 +51,18 @@ func (e *Exec) heapGet(st *State, key string) Term {
 	if !ok {
 		panic("heapGet: unknown key " + key)
 	}
-	if st.HavocAll || st.Unknown[key] {
-		t := e.Ctx.Fresh("hu", srt)
+	if id := st.Unknown[key]; id != 0 || st.HavocAll {
+		if id == 0 {
+			id = st.HavocID
+		}
+		if id == 0 {
+			t := e.Ctx.Fresh("hu", srt)
+			st.Heap[key] = t
+			return t
+		}
+		name := fmt.Sprintf("hu%d_%s", id, mangle(key))
+		e.Ctx.DeclareConst(name, srt)
+		t := Term{name, srt}
 		st.Heap[key] = t
 		return t
 	}
@@ -212,13 +225,24 @@ func (e *Exec) Merge(states ...*State) *State {
 
 func (e *Exec) merge2(a, b *State) *State {
 	n := &State{PC: Or(a.PC, b.PC), Vars: map[types.Object]Term{}, Heap: map[string]Term{}, HavocAll: a.HavocAll || b.HavocAll}
-	if len(a.Unknown)+len(b.Unknown) > 0 {
-		n.Unknown = map[string]bool{}
-		for k := range a.Unknown {
-			n.Unknown[k] = true
+	if n.HavocAll {
+		if a.HavocAll && b.HavocAll && a.HavocID == b.HavocID {
+			n.HavocID = a.HavocID
+		} else {
+			n.HavocID = e.nextHavocID()
 		}
-		for k := range b.Unknown {
-			n.Unknown[k] = true
+	}
+	if len(a.Unknown)+len(b.Unknown) > 0 {
+		n.Unknown = map[string]int{}
+		for k, v := range a.Unknown {
+			n.Unknown[k] = v
+		}
+		for k, v := range b.Unknown {
+			if v0, ok := n.Unknown[k]; ok && v0 != v {
+				n.Unknown[k] = e.nextHavocID()
+			} else {
+				n.Unknown[k] = v
+			}
 		}
 	}
 	n.PC = e.definePC(n.PC)
@@ -387,4 +411,9 @@ func isRefType(t types.Type) bool {
 		return true
 	}
 	return false
+}
+
+func (e *Exec) nextHavocID() int {
+	e.havocSeq++
+	return e.havocSeq
 }
